@@ -246,3 +246,39 @@ def fam_snap_names(tier: str, rng: random.Random) -> Iterator[dict]:
                     for m in c["members"]:
                         m["kind"] = "fn"
             yield {"hid": 0, "tag": "snapnames-" + shape, "names": ["f", "g"], "con": b.con, "cls": cls, "posthoc": []}
+
+
+def fam_wraptable(tier: str, rng: random.Random) -> Iterator[dict]:
+    """C03 (member selection): which members get invariant checks - public methods, properties and dunders yes;
+    _protected, __repr__, static and class methods no - for every check_on combination, on a class and on a
+    subclass that inherits / overrides / adds members."""
+    member_sets = [
+        [("f", "fn"), ("_prot", "fn"), ("__call__", "fn"), ("__repr__", "fn")],
+        [("f", "prop"), ("g", "static"), ("_prot", "fn")],
+        [("f", "cls"), ("g", "fn"), ("__call__", "fn")],
+    ]
+    inv_opts = [[], ["CALL"], ["SETATTR"], ["ALL"], ["CALL", "SETATTR"], ["SETATTR", "CALL"]]
+    for shape in ("single", "chain2", "chain3"):
+        n = len(SHAPES[shape])
+        mros = mro_of(SHAPES[shape])
+        for ms in member_sets:
+            for iopts in itertools.product(inv_opts, repeat=n):
+                if tier == "quick" and n == 3 and rng.random() < 0.7:
+                    continue
+                for placement in itertools.product([0, 1, 2], repeat=n - 1):   # subclass: nothing / overrides all / adds g only
+                    b = Builder()
+                    cls = []
+                    for k, bases in enumerate(SHAPES[shape], 1):
+                        if k == 1:
+                            here = ms
+                        else:
+                            pl = placement[k - 2]
+                            here = [] if pl == 0 else (ms if pl == 1 else [("h", "fn")])
+                        members = [{"name": nm, "kind": kd, "decos": []} for nm, kd in here]
+                        invs = [{"c": b.new("inv", on)} for on in iopts[k - 1]]
+                        cls.append({"bases": list(bases), "mro": mros[k - 1], "dbc": True, "members": members,
+                                    "invs": invs, "mod": "app.models"})
+                    if not b.con:
+                        b.new("inv", "CALL")
+                    yield {"hid": 0, "tag": "wraptable-" + shape, "names": ["f", "g", "h", "_prot", "__call__", "__repr__"],
+                           "con": b.con, "cls": cls, "posthoc": []}
